@@ -1443,6 +1443,36 @@ def install(prog):
             if it.branch(it.binop('Eq', a[0], mn, ty)) and it.branch(it.binop('Eq', a[1], -1, ty)): return mk_none()
         return mk_some(it.binop('Div' if m.group(2) == 'div' else 'Rem', a[0], a[1], ty))
 
+    @M(r'core::num::<impl (\w+)>::wrapping_(div|rem)')
+    def _(it, m, a):
+        ty = m.group(1); w, sg = INT_TYPES[ty]
+        if it.branch(it.binop('Eq', a[1], 0, ty)): raise Panic('attempt to divide by zero' if m.group(2) == 'div' else 'attempt to calculate the remainder with a divisor of zero')
+        if sg and it.branch(it.binop('Eq', a[1], -1, ty)):
+            return it.binop('Sub', 0, a[0], ty) if m.group(2) == 'div' else 0
+        return it.binop('Div' if m.group(2) == 'div' else 'Rem', a[0], a[1], ty)
+
+    @M(r'core::num::<impl (\w+)>::checked_abs')
+    def _(it, m, a):
+        ty = m.group(1); w, sg = INT_TYPES[ty]
+        if it.branch(it.binop('Eq', a[0], -(1 << (w - 1)), ty)): return mk_none()
+        if it.branch(it.binop('Lt', a[0], 0, ty)): return mk_some(it.binop('Sub', 0, a[0], ty))
+        return mk_some(a[0])
+
+    @M(r'core::num::<impl (i\w+)>::(div_euclid|rem_euclid)')
+    def _(it, m, a):
+        # core: q = self / rhs; if self % rhs < 0 { if rhs > 0 { q - 1 } else { q + 1 } } else { q }   (panics as / does)
+        ty = m.group(1); w, sg = INT_TYPES[ty]
+        if it.branch(it.binop('Eq', a[1], 0, ty)): raise Panic('attempt to divide by zero')
+        if it.branch(it.binop('Eq', a[0], -(1 << (w - 1)), ty)) and it.branch(it.binop('Eq', a[1], -1, ty)): raise Panic('attempt to divide with overflow', 'overflow')
+        q = it.binop('Div', a[0], a[1], ty); r = it.binop('Rem', a[0], a[1], ty)
+        neg = it.branch(it.binop('Lt', r, 0, ty))
+        pos = it.branch(it.binop('Gt', a[1], 0, ty)) if neg else None
+        if m.group(2) == 'div_euclid':
+            if not neg: return q
+            return it.binop('Sub', q, 1, ty) if pos else it.binop('Add', q, 1, ty)
+        if not neg: return r
+        return it.binop('Add', r, a[1], ty) if pos else it.binop('Sub', r, a[1], ty)
+
     @M(r'core::num::<impl (\w+)>::checked_neg')
     def _(it, m, a):
         ty = m.group(1); w, sg = INT_TYPES[ty]
@@ -1644,7 +1674,7 @@ def install(prog):
 
 
     # ---- operator traits on (references to) primitive integers ---------------------------------------
-    @M(r'<&?(u8|u16|u32|u64|usize|i8|i16|i32|i64|isize) as (Add|Sub|Mul|Div|Rem|Shl|Shr|BitAnd|BitOr|BitXor)(?:<&?(\w+)>)?>::(?:add|sub|mul|div|rem|shl|shr|bitand|bitor|bitxor)')
+    @M(r'<&?(u8|u16|u32|u64|usize|i8|i16|i32|i64|isize) as (Add|Sub|Mul|Div|Rem|Shl|Shr|BitAnd|BitOr|BitXor)(?:<&?([iu](?:8|16|32|64|128|size))>)?>::(?:add|sub|mul|div|rem|shl|shr|bitand|bitor|bitxor)')
     def _(it, m, a):
         ty, op = m.group(1), m.group(2)
         x, y = deref(a[0]), deref(a[1])
@@ -1695,6 +1725,27 @@ def install(prog):
         if name: return it.call(name, a)
         return clone_val(it, deref(a[0]) if not isinstance(deref1(a[0]), Ref) or not isinstance(deref1(a[0]).get(), Ref) else deref1(a[0]))
 
+    @M(r'(?:std::cmp::|core::cmp::)?Ordering::reverse')
+    def _(it, m, a): return mk_ordering(-deref(a[0]).var)
+
+    @M(r'(?:std::cmp::|core::cmp::)?Ordering::(is_lt|is_le|is_gt|is_ge|is_eq|is_ne)')
+    def _(it, m, a):
+        o = deref(a[0]).var
+        return {'is_lt': o < 0, 'is_le': o <= 0, 'is_gt': o > 0, 'is_ge': o >= 0, 'is_eq': o == 0, 'is_ne': o != 0}[m.group(1)]
+
+    @M(r'<Ordering as PartialEq>::(eq|ne)')
+    def _(it, m, a):
+        r = deref(a[0]).var == deref(a[1]).var
+        return r if m.group(1) == 'eq' else not r
+
+    @M(r'<(f64|f32) as PartialOrd>::partial_cmp')
+    def _(it, m, a):
+        x, y = deref(a[0]), deref(a[1])
+        if it.branch(it.float_binop('Lt', x, y)): return mk_some(mk_ordering(-1))
+        if it.branch(it.float_binop('Eq', x, y)): return mk_some(mk_ordering(0))
+        if it.branch(it.float_binop('Gt', x, y)): return mk_some(mk_ordering(1))
+        return mk_none()
+
     # ---- generic comparison fallbacks ---------------------------------------------------------------
     @M(r'<(Option|Result)<.*> as PartialEq>::(eq|ne)')
     def _(it, m, a):
@@ -1737,8 +1788,10 @@ def install(prog):
     @M(r'<(.+) as PartialOrd(<.*>)?>::(lt|le|gt|ge)')
     def _(it, m, a):
         """provided methods of PartialOrd for crate types: through the crate's partial_cmp"""
+        it.prog.last_autoderef = 0
         name = it.prog.resolve_crate('<%s as PartialOrd%s>::partial_cmp' % (m.group(1), m.group(2) or ''))
         if not name: raise Unsupported('call ' + m.group(0))
+        a = autoderef(a, it.prog.last_autoderef)
         r = it.call(name, a)
         if r.var == 0: return False
         o = r.f[0].var
@@ -1746,8 +1799,10 @@ def install(prog):
 
     @M(r'<(.+) as PartialEq(<.*>)?>::ne')
     def _(it, m, a):
+        it.prog.last_autoderef = 0
         name = it.prog.resolve_crate('<%s as PartialEq%s>::eq' % (m.group(1), m.group(2) or ''))
         if not name: raise Unsupported('call ' + m.group(0))
+        a = autoderef(a, it.prog.last_autoderef)
         r = it.call(name, a)
         return (not r) if isinstance(r, bool) else z3.Not(r)
 
@@ -1866,6 +1921,15 @@ def install(prog):
 
     @M(r'<LevelFilter as PartialOrd>::le|<Level as PartialOrd<LevelFilter>>::le')
     def _(it, m, a): return False
+
+
+def autoderef(args, n):
+    out = []
+    for x in args:
+        for _ in range(n):
+            if isinstance(x, Ref) and isinstance(x.get(), Ref): x = x.get()
+        out.append(x)
+    return out
 
 
 def ascii_lower(it, c):
